@@ -59,8 +59,17 @@ func genDirEntries(r *rng.R, cfg *scfg) []dent {
 			return []byte(strings.Replace(string(b), "hmac_sha256_scrypt", "argon2id", 1))
 		}
 	}
+	// half of the directories use a family of RELATED names: one name is a dotted / suffixed
+	// extension of another (and may itself end in ".user" / ".admin"), so that in any sorted
+	// or hashed order other users' files fall between <P>.admin and <P>.user
+	pool := namePool
+	if r.Bool() {
+		p := namePool[r.Intn(len(namePool))]
+		pool = []string{p, p, p, p + ".doe", p + ".b", p + ".t", p + ".example.com", p + ".user", p + ".admin", p + "-x", p + "@m", p + "0", p + ".a", p + ".admin.x"}
+		n = 2 + r.Intn(7)
+	}
 	for i := 0; i < n; i++ {
-		u := namePool[r.Intn(len(namePool))]
+		u := pool[r.Intn(len(pool))]
 		var e dent
 		switch k := r.Intn(24); {
 		case k < 7:
